@@ -1,5 +1,6 @@
 import PtVerif.Proofs.GrammarPrint
 import PtVerif.Proofs.PrintReal
+import PtVerif.Proofs.GrammarSound
 import PtVerif.Model.GrammarTable
 /-!
 # C13 — printing a formula and parsing it back gives the same formula
@@ -25,6 +26,12 @@ open PtModel PtModel.Grammar PtModel.Print
 theorem parse_print (T : Table) (hT : T.wf = true) (s : Items Q) (hs : okItems T s = true) :
     parse T (strItems T s) = .ok (norm (roundItems s), none) :=
   parse_strItems T hT s hs
+
+/-- **`str(formula)` is itself a string of the grammar**: the printed text is the yield of a
+    derivation of the documented grammar (Model/GrammarSpec.lean) that denotes the rounded formula -/
+theorem printed_is_grammar_string (T : Table) (hT : T.wf = true) (s : Items Q) (hs : okItems T s = true) :
+    ∃ D : Compound, D.wf = true ∧ D.text = strItems T s ∧ D.result T = some (norm (roundItems s), none) :=
+  Grammar.parse_sound T _ _ _ (parse_print T hT s hs)
 
 /-- the full statement of the property: the *same* nesting -/
 def parse_print_full : Prop :=
